@@ -16,7 +16,7 @@ function, arbitrary sizes (`max_population_size ≥ 1`) and **every** finite seq
 
 Greedy: `/repo`'s `add_all` folds with a short-circuiting `||` (`Greedy.repoShortCircuits`): the theorems are given for
 both folds; for the short-circuiting one only the considered prefix of a batch counts as offered
-(`…_partial`), and `greedy_repo_add_all_loses_best` is the kernel-checked counter-witness for whole batches.
+(`…_partial`), and `greedy_short_circuit_add_all_loses_best` is the kernel-checked counter-witness for whole batches.
 Out of model: the GSOM network — the node part of `Rosomaxa::select` in the exploration phase comes from a tape that is
 assumed to contain offered individuals only (`tapeHyp`, C19's domain).
 -/
@@ -81,7 +81,7 @@ theorem greedy_best_le_all_offered (c : Cfg α) (hp : TotalPreorder c.le) (init 
 /-- **Greedy as in /repo (short-circuiting fold), partial**: the best known is no worse than every individual
     offered singly and every individual of the *considered prefix* of each batch (up to and including its first
     improving element). Missing for the full property: the batch elements after the first improving one —
-    see `greedy_repo_add_all_loses_best`. -/
+    see `greedy_short_circuit_add_all_loses_best`. -/
 theorem greedy_best_le_all_considered_partial (c : Cfg α) (hp : TotalPreorder c.le) (init : Option α)
     (ops : List (Op α)) (y : α)
     (hy : y ∈ offeredAfter (greedySpec true c) (greedyM true c) init.toList init ops) :
@@ -183,10 +183,12 @@ theorem natCfg_fit (cap sel : Nat) (a b : Nat) :
   · have : ¬ (a ≤ b ∧ b ≤ a) := by omega
     simp [h]; omega
 
-/-- **counter-witness (the code as it is)**: `Greedy::add_all([5, 3])` on an empty population keeps `5` and
-    reports an improvement, although `3` was offered in the same batch and is strictly better. -/
-theorem greedy_repo_add_all_loses_best :
-    Greedy.addAll Greedy.repoShortCircuits (natCfg 1 1) none [5, 3] = (some 5, true) ∧
+/-- **counter-witness for the short-circuiting fold** (what /repo's `Greedy::add_all` is as long as
+    `Greedy.repoShortCircuits = true`, which the correspondence run checks; replayed on the real code by
+    `corpus/C08/greedy_batch_skips_better.jsonl`): `add_all([5, 3])` on an empty population keeps `5` and reports an
+    improvement, although `3` was offered in the same batch and is strictly better; the exhaustive fold keeps `3`. -/
+theorem greedy_short_circuit_add_all_loses_best :
+    Greedy.addAll true (natCfg 1 1) none [5, 3] = (some 5, true) ∧
       (natCfg 1 1).le 5 3 = false ∧
       Greedy.addAll false (natCfg 1 1) none [5, 3] = (some 3, true) := by
   decide
